@@ -178,6 +178,6 @@ def translation_validation(sc, case, paths, K=3, rtol=1e-8):
                     mism.append('field %s: extracted %r real %r at %s' % (n, mine, real, jval(pt)))
                 continue
             if mine is None: continue
-            if abs(mine - real) > rtol * max(abs(mine), abs(real)) + 1e-300:
+            if abs(mine - real) > rtol * max(abs(mine), abs(real)) + 1e-18:      # absolute floor: cancellation noise of the 20-digit evaluation vs an exact float zero
                 mism.append('field %s: extracted %.12g real %.12g at %s' % (n, mine, real, jval(pt)))
     return len(reqs), mism
